@@ -65,6 +65,39 @@ def range_item(t):
     return isinstance(t, tuple) and t and t[0] == 'app' and t[1] in ('vproj', 'payload') and t[2][0] == 'call' and t[2][1].endswith('::next')
 
 
+def view_fill(ctx, I, r, b, own, slices, base_ptr, nret, fn, name):
+    """the fill written through a slice view of the reserved block: `for (i, slot) in view.iter_mut().enumerate() { *slot = f(i) }`
+    (view = from_raw_parts_mut(reserved base, n), typically of MaybeUninit<T>).  Returns True if it recognised (and judged) the form."""
+    im = [e for e in own if e.kind == 'call' and (e.callee or '').endswith('<impl [T]>::iter_mut') and e.args and e.args[0][0] == 'agg' and e.args[0][1] == 'slice']
+    en = [e for e in own if e.kind == 'call' and (e.callee or '').endswith('Iterator::enumerate')]
+    nx = [e for e in own if e.kind == 'call' and 'Enumerate<' in (e.callee or '') and (e.callee or '').endswith('Iterator>::next')]
+    if len(im) != 1 or len(en) != 1 or len(nx) != 1 or en[0].args[0] != im[0].ret:
+        return False
+    item = ('app', 'vproj', nx[0].ret, 'Some', '0')
+    idx = ('app', 'proj', item, 'tuple.0')
+    slot = ('app', 'proj', item, 'tuple.1')
+    sts = [e for e in own if e.kind == 'store' and e.lv == ('deref', slot)]
+    if len(sts) != 1:
+        return False
+    view = im[0].args[0]
+    if field_of(view, 'ptr') == base_ptr and field_of(view, 'len') == nret:
+        ctx.ok('R1', '%s: the fill runs over a view of exactly the reserved block (base, %s)' % (fn, show(nret)[:30]), 'slice view + enumerate')
+    else:
+        ctx.violation('R1', fn, 'loop-bound', 'the view the fill iterates (%s) is not (reserved base, returned length)' % show(view)[:80], im[0].span)
+    uc = [e for e in r.events if e.kind == 'usercall']
+    val = sts[0].val
+    if name == 'alloc_slice_try_fill_with':
+        valok = any(isinstance(t, tuple) and t and t[0] == 'call' and t[1] == '<callable>' for t in subterms(val))
+    else:
+        valok = val[0] == 'call' and val[1] == '<callable>' and val[2] == (idx,)
+    agree = len(uc) == 1 and uc[0].args and uc[0].args[0] == idx and r.events.index(uc[0]) < r.events.index(sts[0]) and arena.foreach_loop(I, r, b, nx[0], sts[0], early_exit_ok=(name == 'alloc_slice_try_fill_with'))
+    if agree and valok:
+        ctx.ok('R2', '%s: slot i of the view receives f(i): index and slot come from the same enumerate item; one callback per slot, before the store' % fn, show(idx)[:50])
+    else:
+        ctx.violation('R2', fn, 'index-agreement', 'the view slot is written with %s while the callback was given %s' % (show(val)[:60], show(uc[0].args[0])[:40] if uc and uc[0].args else '?'), sts[0].span)
+    return True
+
+
 def run(ctx, config='rel-all'):
     db = ctx.db(config)
     A = arena.analyse(ctx, config)
@@ -125,6 +158,9 @@ def run(ctx, config='rel-all'):
                     bound_ok = field_of(e.args[0], 'start') == C(0) and field_of(e.args[0], 'end') == nret
                 if e.kind == 'call' and e.callee and e.callee.endswith('<impl [T]>::iter') and e.args and app('len', e.args[0]) == nret:
                     bound_ok = True
+                # `for x in slice` (IntoIterator for &[T]): one iteration per element of a slice whose length is the returned length
+                if e.kind == 'call' and e.callee and 'IntoIterator for &' in e.callee and e.callee.endswith('[T]>::into_iter') and e.args and app('len', e.args[0]) == nret:
+                    bound_ok = True
             if not bound_ok:
                 # counter loop `while i < len { .. i += 1 }`: the written index is a loop counter (0, +1) and the write happens under i < len
                 Ls = [v for (bid, h), v in r.loops.items()]
@@ -159,6 +195,8 @@ def run(ctx, config='rel-all'):
                     v = w.args[1]
                     if src_item is not None and v == ('app', 'proj', src_item, idx[3][:-1] + '1'):
                         ctx.ok('R2', '%s: slot i receives the i-th cloned element (index and value from the same enumerate item)' % fn, show(idx)[:60])
+                    elif v[0] == 'param':
+                        ctx.ok('R2', '%s: every slot receives the value the caller passed (a Copy parameter)' % fn, show(v))
                     elif v[0] == 'call' and v[1].endswith('Clone::clone') and idx in subterms(v) and ('param', 2) in subterms(v):
                         ctx.ok('R2', '%s: slot i receives a clone of src[i] (the write offset is the index used to read the source)' % fn, show(idx)[:60])
                     else:
@@ -170,12 +208,22 @@ def run(ctx, config='rel-all'):
                 val = w.args[1]
                 okc = len(uc) == 1 and r.events.index(uc[0]) < r.events.index(w) and any(isinstance(t, tuple) and t and t[0] == 'call' and t[1] == '<callable>' for t in subterms(val)) \
                     and range_item(uc[0].args[0] if uc[0].args else None)
-                if okc:
+                # ... or the k-th slot receives (a clone of) the k-th item of the source slice: cursor and slice iterator advance
+                # together, one `next` and one write per iteration
+                nxs = [e for e in own if e.kind == 'call' and (e.callee or '').endswith('Iterator>::next') and 'slice::iter::Iter<' in (e.callee or '')]
+                item_ok = not uc and len(nxs) == 1 and len(writes) == 1 and r.events.index(nxs[0]) < r.events.index(w) and \
+                    (val == ('app', 'vproj', nxs[0].ret, 'Some', '0') or (val[0] == 'call' and val[1].endswith('Clone::clone') and val[2] == (('app', 'vproj', nxs[0].ret, 'Some', '0'),))) and \
+                    arena.foreach_loop(I, r, b, nxs[0], w)
+                if item_ok:
+                    ctx.ok('R2', '%s: cursor and source iterator advance together; slot k receives (a clone of) the k-th element of the source' % fn, 'one next() and one write per iteration, cursor step = one element')
+                elif okc:
                     ctx.ok('R2', '%s: a cursor starting at the reserved base advances one element per iteration of 0..n; slot k receives f(k)' % fn, 'loop init / step of the cursor')
                 else:
                     ctx.violation('R2', fn, 'index-agreement', 'the cursor-based fill does not pass the iteration index of 0..n to the callback once per slot', w.span)
             else:
                 ctx.violation('R2', fn, 'write-target', 'element writes do not target reserved_base + i * size_of::<T>() (%s)' % show(w.args[0])[:80], w.span)
+        elif view_fill(ctx, I, r, b, own, slices, base_ptr, nret, fn, name):
+            pass
         else:
             ctx.violation('R1', fn, 'no-initialisation', '%s neither copies nor writes the elements it returns' % fn, b.get('span'))
     ctx.floor('R1', n1, 7, 'slice allocation methods')
@@ -184,6 +232,9 @@ def run(ctx, config='rel-all'):
     # to initialise memory itself is outside what R1/R2 decided and is reported
     CORE = set(SLICE_METHODS) | set(VALUE_METHODS)
     n6 = 0
+    # what counts as "an arena initialiser" in a forward: any method of this inventory, or the raw reservation entry points
+    INV = {x['meta']['name'] for x in db.fn_bodies() if x['kind'] == 'assoc_fn' and x['meta'].get('impl_adt') == 'Bump' and x['meta'].get('pub') and not x['meta'].get('impl_trait')
+           and '&' in (x['meta'].get('output') or '') and 'mut' in (x['meta'].get('output') or '')} | {'alloc_layout', 'try_alloc_layout'}
     for b in db.fn_bodies():
         m = b['meta']
         out = m.get('output') or ''
@@ -197,7 +248,7 @@ def run(ctx, config='rel-all'):
         if name in CORE or name in targets:
             ctx.ok('R6', 'Bump::%s is an analysed initialiser' % name, 'R1/R2')
             continue
-        fw = [e for e in own if e.kind == 'call' and 'Bump::<MIN_ALIGN>::' in (e.callee or '') and not e.callee.endswith('is_last_allocation') and '{closure' not in e.callee]
+        fw = [e for e in own if e.kind == 'call' and 'Bump::<MIN_ALIGN>::' in (e.callee or '') and e.callee.split('::')[-1] in INV and '{closure' not in e.callee]
         if raw:
             ctx.violation('R6', 'Bump::' + name, 'raw-initialisation', 'Bump::%s performs raw initialisation itself (%s) but is not among the initialisers whose extents and indices are checked; only forwards to %s are expected here' % (name, sorted({e.kind if e.kind != 'call' else e.callee.split('::')[-1] for e in raw}), sorted(CORE)[:4]), raw[0].span)
         elif len(fw) != 1:
@@ -232,6 +283,14 @@ def run(ctx, config='rel-all'):
             okv = len(fw) == 1 and fw[0].args[0] == P1 and len(cl) >= 1
             if okv and kind != 'iter':
                 okv = fw[0].args[1] == P2_
+            inlined = False
+            if not fw and name in targets:
+                # the worker was inlined into this method: it is one of the analysed initialisers now (extent, indices: R1/R2);
+                # what is left to state here is the value every slot gets
+                ws = [e for e in r.events if e.is_own() and e.kind == 'call' and e.callee == 'core::ptr::write']
+                want_v = {'copy': lambda v: v == P3_, 'clone': lambda v: v[0] == 'call' and v[1].endswith('Clone::clone') and P3_ in subterms(v),
+                          'default': lambda v: v[0] == 'call' and v[1].endswith('Default::default'), 'iter': lambda v: False}[kind]
+                inlined = len(ws) == 1 and want_v(ws[0].args[1])
             if okv:
                 I2, r2 = arena.run_fn(ctx, cl[0]['id'], config)
                 isup = lambda t: isinstance(t, tuple) and len(t) == 3 and t[0] == 'load' and t[1][0] == 'fld' and t[1][1] == ('deref', P1) and t[1][2].endswith('.upvar0')
@@ -246,7 +305,9 @@ def run(ctx, config='rel-all'):
                     okv = r2.ret is not None and r2.ret[0] == 'app' and r2.ret[1] in ('payload', 'vproj') and r2.ret[2][0] == 'call' and r2.ret[2][1].endswith('::next') and len(r2.ret[2][2]) == 1 and isup(r2.ret[2][2][0])
             n7 += 1
             what = {'copy': 'the value itself', 'clone': 'value.clone()', 'default': 'T::default()', 'iter': 'the next item of the iterator (one per slot)'}[kind]
-            if okv:
+            if inlined:
+                ctx.ok('R7', 'Bump::%s: every slot receives %s' % (name, what), 'value operand of the single element write (worker inlined)')
+            elif okv:
                 ctx.ok('R7', 'Bump::%s: every slot receives %s' % (name, what), 'return term of the generator closure')
             else:
                 ctx.violation('R7', 'Bump::' + name, 'generator', 'Bump::%s must fill every slot with %s, for exactly the requested number of slots' % (name, what), b.get('span'))
